@@ -1,10 +1,118 @@
-/- Protocol handlers for the evaluator (graphs are exported once and referenced later). -/
+/- Protocol handlers for the evaluator (graphs are exported once and referenced by later requests). -/
 import HctlModel.Proto
+import HctlModel.Api
+import Std.Data.HashSet
 namespace Hctl.EvalProto
+open Hctl Hctl.Proto
+
+/-- tabulation used by the driver: a hash set of the points of the universe where `f` holds -/
+def hashTab (pts : List Point) (f : CSet) : CSet :=
+  let s : Std.HashSet Point := pts.foldl (fun acc p => if f p then acc.insert p else acc) {}
+  ⟨fun p => s.contains p⟩
 
 structure DriverState where
-  dummy : Nat := 0
+  env : Option Env := none
+  ctxSets : List (Name × CSet) := []
 
-def handle? (_st : DriverState) (_line : String) : Option (DriverState × String) := none
+def classOf (table : List (Char × Char)) : CharClass :=
+  { isAlnum := fun c => table.lookup c == some 'a'
+    isWs := fun c => table.lookup c == some 'w' }
+
+/-- `cp:cls,cp:cls,...` or `-` -/
+def decChars (s : String) : List Char × List (Char × Char) :=
+  if s == "-" then ([], []) else
+  let items := (s.splitOn ",").map (fun it =>
+    match it.splitOn ":" with
+    | [cp, cls] => (Char.ofNat cp.toNat!, (cls.toList.headD 'o'))
+    | _ => ('?', 'o'))
+  (items.map (·.1), items)
+
+def bitsOf (s : String) : Array Bool := (s.toList.map (· == '1')).toArray
+
+def mkGraph (nV nS nC k : Nat) (valid : String) (step : String) (labels : String) : Graph :=
+  let validA := bitsOf valid
+  let stepA : Array Int := ((step.splitOn ",").map (fun w => w.toInt!)).toArray
+  let labs : List (Name × Array Bool) :=
+    if labels == "-" then [] else
+    (labels.splitOn ";").filterMap (fun it =>
+      match it.splitOn ":" with
+      | [n, b] => some (decName n, bitsOf b)
+      | _ => none)
+  { nS := nS, nC := nC, nV := nV, k := k
+    valid := fun c => validA.getD c false
+    step := fun c j s =>
+      let x := stepA.getD ((c * nV + j) * nS + s) (-1)
+      if x < 0 then none else some x.toNat
+    label := fun n => (labs.lookup n).map (fun a => fun s => a.getD s false) }
+
+def showSet (pts : List Point) (a : CSet) : String := String.ofList (pts.map (fun p => if a p then '1' else '0'))
+
+def showSan (G : Graph) (f : Nat → Nat → Bool) : String :=
+  String.ofList ((List.range G.nS).flatMap (fun s => (List.range G.nC).map (fun c => if f s c then '1' else '0')))
+
+def errName : UserErr → String
+  | .syntax' => "syntax" | .free => "free" | .requant => "requant" | .badprop => "badprop"
+  | .support => "support" | .nocontext => "nocontext"
+
+def showOutcome (E : Env) (san : Bool) : Outcome (List CSet) → String
+  | .userError e => "err " ++ errName e
+  | .panic _ => "panic"
+  | .ok rs =>
+    if san then
+      match rs.mapM (fun r => Api.sanitize E r) with
+      | none => "panic"
+      | some fs => "ok " ++ " ".intercalate (fs.map (showSan E.G))
+    else "ok " ++ " ".intercalate (rs.map (showSet E.pts))
+
+def handle? (st : DriverState) (line : String) : Option (DriverState × String) :=
+  match words line with
+  | ["graph", nV, nS, nC, k, valid, step, labels] =>
+    let G := mkGraph nV.toNat! nS.toNat! nC.toNat! k.toNat! valid step labels
+    let pts := G.points
+    let E : Env := { G := G, tab := hashTab pts, pts := pts }
+    some ({ env := some E, ctxSets := [] }, s!"graph ok points={pts.length}")
+  | ["ctx", name, bits] =>
+    match st.env with
+    | none => some (st, "no-graph")
+    | some E =>
+      let a := bitsOf bits
+      -- the set as a function of the point's position in the universe
+      let idx : Std.HashSet Point := (E.pts.zip (List.range E.pts.length)).foldl
+        (fun acc (p, i) => if a.getD i false then acc.insert p else acc) {}
+      let f : CSet := ⟨fun p => idx.contains p⟩
+      some ({ st with ctxSets := (decName name, f) :: st.ctxSets.filter (fun e => e.1 != decName name) }, "ctx ok")
+  | ["ctxclear"] => some ({ st with ctxSets := [] }, "ctx cleared")
+  | "eval" :: variant :: _n :: fs =>
+    match st.env with
+    | none => some (st, "no-graph")
+    | some E =>
+      let decoded := fs.map decChars
+      let table := decoded.flatMap (·.2)
+      let K := classOf table
+      let strs := decoded.map (·.1)
+      let U := E.G.unit0
+      let out := match variant with
+        | "plain_dirty" => showOutcome E false (Api.formulaeDirty E K U strs)
+        | "plain_san" => showOutcome E true (Api.formulaeDirty E K U strs)
+        | "ext_dirty" => showOutcome E false (Api.extendedDirty E K U st.ctxSets strs)
+        | "ext_san" => showOutcome E true (Api.extendedDirty E K U st.ctxSets strs)
+        | "unsafe_ex" =>
+          match strs with
+          | [f] => match Api.unsafeEx E K U f with
+            | .ok r => showOutcome E false (.ok [r])
+            | .userError e => showOutcome E false (.userError e)
+            | .panic s => showOutcome E false (.panic s)
+          | _ => "bad-request"
+        | _ => "bad-request"
+      some (st, out)
+  | ["steady"] =>
+    match st.env with
+    | none => some (st, "no-graph")
+    | some E => some (st, "ok " ++ showSet E.pts (Ops.steadyOf E E.G.unit0))
+  | ["attractors"] =>
+    match st.env with
+    | none => some (st, "no-graph")
+    | some E => some (st, "ok " ++ showSet E.pts (Ops.attractorsOf E E.G.unit0))
+  | _ => none
 
 end Hctl.EvalProto
